@@ -398,12 +398,17 @@ func main() {
 		fmt.Printf("exit=%d timedout=%v\nstderr: %s\n", p.job.ExitCode, p.job.TimedOut, tailS(string(p.job.Stderr)))
 		os.Exit(0)
 	}
+	if old, _ := filepath.Glob(filepath.Join(*verif, "replays", fmt.Sprintf("C14-%d-*.json", base))); len(old) > 0 {
+		for _, f := range old {
+			os.Remove(f)
+		}
+	}
 	a := newAgg()
 	runsPer := 16
 	var detSeeds []uint64
 	switch *tier {
 	case "quick":
-		n := 400
+		n := 5000
 		if *quickN > 0 {
 			n = *quickN
 		}
@@ -414,7 +419,7 @@ func main() {
 		detSeeds = []uint64{procSeed(base, 0), procSeed(base, 1), procSeed(base, 2)}
 		runProcs(a, procs, parallel, pool, eligible, true)
 		if len(a.found) == 0 {
-			sweep(a, base, pool, eligible, poolPath, parallel, 6, 30)
+			sweep(a, base, pool, eligible, poolPath, parallel, 24, 40)
 		}
 	case "thorough":
 		b := *budgetS
